@@ -954,3 +954,88 @@ impl Drop for Scratch {
         let _ = std::fs::remove_dir_all(&self.0);
     }
 }
+
+// ---------------------------------------------------------------- one fresh process per case
+
+/// Runs every case of the wrapped space in a forked child of the worker, so that process-global state of
+/// the subject (a global thread pool, thread-locals of pool threads, lazily built statics) starts pristine
+/// for each case and a verdict cannot depend on which cases the same worker ran before.  The worker itself
+/// never executes subject code.  The child reports its `CaseResult` as JSON through a pipe; a child that dies
+/// (panic outside `guarded`, signal) is a violation attributed to the case.
+pub struct Forked<S: Space>(pub S);
+impl<S: Space> Space for Forked<S> {
+    fn len(&self) -> u64 {
+        self.0.len()
+    }
+    fn describe(&self, i: u64) -> Value {
+        self.0.describe(i)
+    }
+    fn case_timeout(&self) -> u64 {
+        self.0.case_timeout()
+    }
+    fn run(&self, i: u64) -> CaseResult {
+        use std::io::Read;
+        use std::os::fd::FromRawFd;
+        let mut fds = [0i32; 2];
+        assert_eq!(unsafe { libc::pipe(fds.as_mut_ptr()) }, 0, "pipe");
+        let pid = unsafe { libc::fork() };
+        assert!(pid >= 0, "fork");
+        if pid == 0 {
+            unsafe { libc::close(fds[0]) };
+            let res = std::panic::catch_unwind(std::panic::AssertUnwindSafe(|| self.0.run(i)));
+            let code = match res {
+                Ok(r) => {
+                    let v = json!({
+                        "nontrivial": r.nontrivial, "key": r.key, "outcome": r.outcome, "err_return": r.err_return,
+                        "viols": r.viols.iter().map(|v| json!([v.symptom, v.detail])).collect::<Vec<_>>(),
+                        "counters": r.counters.iter().map(|c| json!([c.0, c.1])).collect::<Vec<_>>(),
+                        "payload": r.payload,
+                    });
+                    let bytes = serde_json::to_vec(&v).unwrap_or_default();
+                    let mut off = 0usize;
+                    while off < bytes.len() {
+                        let n = unsafe { libc::write(fds[1], bytes[off..].as_ptr() as *const libc::c_void, bytes.len() - off) };
+                        if n <= 0 {
+                            break;
+                        }
+                        off += n as usize;
+                    }
+                    0
+                }
+                Err(_) => 101,
+            };
+            unsafe { libc::_exit(code) }
+        }
+        unsafe { libc::close(fds[1]) };
+        let mut f = unsafe { std::fs::File::from_raw_fd(fds[0]) };
+        let mut buf = vec![];
+        let _ = f.read_to_end(&mut buf);
+        let mut status = 0i32;
+        unsafe { libc::waitpid(pid, &mut status, 0) };
+        let mut r = CaseResult::new();
+        match serde_json::from_slice::<Value>(&buf) {
+            Ok(v) if libc::WIFEXITED(status) && libc::WEXITSTATUS(status) == 0 => {
+                r.nontrivial = v["nontrivial"].as_bool().unwrap_or(false);
+                r.key = v["key"].as_str().unwrap_or("").to_string();
+                r.outcome = v["outcome"].as_str().unwrap_or("").to_string();
+                r.err_return = v["err_return"].as_bool().unwrap_or(false);
+                for x in v["viols"].as_array().cloned().unwrap_or_default() {
+                    r.viol(x[0].as_str().unwrap_or(""), x[1].as_str().unwrap_or(""));
+                }
+                for x in v["counters"].as_array().cloned().unwrap_or_default() {
+                    r.count(x[0].as_str().unwrap_or(""), x[1].as_u64().unwrap_or(0));
+                }
+                if !v["payload"].is_null() {
+                    r.payload = Some(v["payload"].clone());
+                }
+            }
+            _ => {
+                r.nontrivial = true;
+                r.key = format!("{i}");
+                let how = if libc::WIFSIGNALED(status) { format!("killed by signal {}", libc::WTERMSIG(status)) } else { format!("exit status {}", libc::WEXITSTATUS(status)) };
+                r.viol("crash: the case's own process died", format!("{how}; {} bytes of result received", buf.len()));
+            }
+        }
+        r
+    }
+}
